@@ -329,7 +329,8 @@ func processCommandLine(args []string, argsMap map[string]any) int {
 	}
 
 	// Overwrite verbosity if the output goes to stdout
-	if (len(inputName) == 0 && len(outputName) == 0) || strings.EqualFold(outputName, "STDOUT") == true {
+	// (also when stdin is named explicitly and no output is given: the output then defaults to stdout)
+	if (len(outputName) == 0 && (len(inputName) == 0 || strings.EqualFold(inputName, "STDIN") == true)) || strings.EqualFold(outputName, "STDOUT") == true {
 		verbose = 0
 	}
 
